@@ -79,6 +79,43 @@ pub mod rsapool {
         let dir = concat!(env!("CARGO_MANIFEST_DIR"), "/data");
         std::fs::read(format!("{dir}/{name}-0.der")).expect("rsa pool file")
     }
+    /// the same private key with its three CRT integers (dP, dQ, qInv) replaced: 0 = zeros, 1 = each
+    /// incremented, 2 = dP and dQ swapped. Parsers that recompute the CRT values accept these.
+    pub fn with_other_crt(sk_der: &[u8], how: u8) -> Option<Vec<u8>> {
+        use rsa::pkcs1::der::asn1::UintRef;
+        use rsa::pkcs1::der::{Decode, Encode};
+        let k = rsa::pkcs1::RsaPrivateKey::from_der(sk_der).ok()?;
+        let inc = |u: &UintRef| -> Vec<u8> {
+            let mut v = u.as_bytes().to_vec();
+            if let Some(l) = v.last_mut() {
+                *l ^= 1;
+            }
+            v
+        };
+        let (e1, e2, c): (Vec<u8>, Vec<u8>, Vec<u8>) = match how {
+            0 => (vec![0], vec![0], vec![0]),
+            1 => (inc(&k.exponent1), inc(&k.exponent2), inc(&k.coefficient)),
+            _ => (k.exponent2.as_bytes().to_vec(), k.exponent1.as_bytes().to_vec(), k.coefficient.as_bytes().to_vec()),
+        };
+        let k2 = rsa::pkcs1::RsaPrivateKey {
+            modulus: k.modulus,
+            public_exponent: k.public_exponent,
+            private_exponent: k.private_exponent,
+            prime1: k.prime1,
+            prime2: k.prime2,
+            exponent1: UintRef::new(&e1).ok()?,
+            exponent2: UintRef::new(&e2).ok()?,
+            coefficient: UintRef::new(&c).ok()?,
+            other_prime_infos: None,
+        };
+        k2.to_der().ok()
+    }
+    /// canonical PKCS#1 DER of a private key given as DER or PEM (independent parser, CRT values recomputed)
+    pub fn canonical_secret(input: &[u8]) -> Option<Vec<u8>> {
+        use rsa::pkcs1::{DecodeRsaPrivateKey, EncodeRsaPrivateKey};
+        let k = rsa::RsaPrivateKey::from_pkcs1_der(input).ok().or_else(|| std::str::from_utf8(input).ok().and_then(|p| rsa::RsaPrivateKey::from_pkcs1_pem(p).ok()))?;
+        k.to_pkcs1_der().ok().map(|d| d.as_bytes().to_vec())
+    }
     /// SPKI DER of the public half of a PKCS#1 private key
     pub fn public_of(sk_der: &[u8]) -> Vec<u8> {
         use rsa::pkcs1::DecodeRsaPrivateKey;
@@ -341,6 +378,23 @@ impl<B: Backend> KeyPair<B> {
             }
             KeyPair::Public(_, pk) => {
                 let t: SignedToken<B, Raw, Vec<u8>> = token.parse()?;
+                let u = t.verify_with_aad(pk, aad, &nv)?;
+                Ok((u.claims.0, u.footer))
+            }
+        }
+    }
+    /// parse through the serde `Deserialize` impl (a JSON string) instead of `FromStr`, then unseal
+    pub fn open_via_serde(&self, token: &str, aad: &[u8]) -> Result<(Vec<u8>, Vec<u8>), PasetoError> {
+        let nv = NoValidation::dangerous_no_validation();
+        let v = serde_json::Value::String(token.to_string());
+        match self {
+            KeyPair::Local(k) => {
+                let t: EncryptedToken<B, Raw, Vec<u8>> = serde_json::from_value(v).map_err(|_| PasetoError::InvalidToken)?;
+                let u = t.decrypt_with_aad(k, aad, &nv)?;
+                Ok((u.claims.0, u.footer))
+            }
+            KeyPair::Public(_, pk) => {
+                let t: SignedToken<B, Raw, Vec<u8>> = serde_json::from_value(v).map_err(|_| PasetoError::InvalidToken)?;
                 let u = t.verify_with_aad(pk, aad, &nv)?;
                 Ok((u.claims.0, u.footer))
             }
